@@ -36,7 +36,7 @@ ASAN_MODULES = ["cherab.core.model.lineshape.gaussian", "cherab.core.model.lines
                 "cherab.core.model.beam.beam_emission", "cherab.core.model.attenuator.singleray",
                 "cherab.core.model.laser.model", "cherab.core.model.laser.math_functions", "cherab.core.model.laser.laserspectrum"]
 ASAN = dict(cases=400, workers=8, timecap=300)
-REQUIRED = {"observations_compared": 300, "mutators_applied": 300, "fresh_builds": 100}
+REQUIRED = {"observations_compared": 300, "mutators_applied": 300, "fresh_builds": 100, "notifier_callbacks_checked": 100}
 
 SPECIES_POOL = [("deuterium", 0), ("deuterium", 1), ("hydrogen", 0), ("helium", 1), ("helium", 2), ("carbon", 5),
                 ("carbon", 6), ("neon", 9), ("neon", 10)]
@@ -185,7 +185,29 @@ def pick_models(rng, table, n):
     return [table[int(i)] for i in idx]
 
 
+def gen_notifier_case(rng):
+    n = int(rng.integers(2, 7))
+    ops = []
+    for _ in range(int(rng.integers(4, 40))):
+        u = rng.random()
+        i = int(rng.integers(n))
+        if u < 0.35:
+            ops.append(["add", i])
+        elif u < 0.45:
+            ops.append(["remove", i])
+        elif u < 0.62:
+            ops.append(["delete", i])
+        elif u < 0.72:
+            ops.append(["recreate", i])
+        else:
+            ops.append(["notify"])
+    ops.append(["notify"])
+    return dict(kind="notifier", n=n, kinds=[["method", "function"][int(rng.integers(2))] for _ in range(n)], ops=ops)
+
+
 def gen_case(rng, tier):
+    if rng.random() < 0.12:
+        return gen_notifier_case(rng)
     has_beam = rng.random() < 0.6
     has_laser = rng.random() < (0.35 if has_beam else 0.6)
     n_pm = int(rng.integers(0, 4)) if (has_beam or has_laser) else int(rng.integers(1, 4))
@@ -246,9 +268,29 @@ def gen_case(rng, tier):
     pts = [[_r(rng.uniform(-0.08, 0.08)), _r(rng.uniform(-0.08, 0.08)), _r(rng.uniform(0.05, 1.7))] for _ in range(4)]
     probes = dict(rays=rays, beam_points=pts)
     # history
-    nops = int(rng.integers(1, 11))
     hist = []
     sim = copy.deepcopy(cfg)
+    if rng.random() < 0.3:
+        # template: observe, replace an object (its dependants die), observe, change state the caches depend on, observe
+        def pick(kinds):
+            for _ in range(40):
+                op = gen_op(rng, sim)
+                if op is not None and op["op"] in kinds:
+                    return op
+            return None
+        hist.append(dict(op="observe"))
+        for kinds, obs_p in ((REPLACING_OPS, 0.7), (STATE_OPS, 0.5), (STATE_OPS, 1.0)):
+            for _ in range(int(rng.integers(1, 3))):
+                op = pick(kinds)
+                if op is not None:
+                    hist.append(op)
+                    _sim_apply(sim, op)
+            if rng.random() < obs_p:
+                hist.append(dict(op="observe"))
+        if hist[-1]["op"] != "observe":
+            hist.append(dict(op="observe"))
+        return dict(cfg=cfg, probes=probes, history=hist)
+    nops = int(rng.integers(1, 11))
     if rng.random() < 0.75:
         hist.append(dict(op="observe"))
     for _ in range(nops):
@@ -362,6 +404,14 @@ def gen_laser_op(rng, sim, k):
             v = _r((hi - lo) * rng.uniform(0.05, 0.6))
         return dict(op=k, attr=a, v=v)
     return None
+
+
+REPLACING_OPS = {"p_models_set", "p_models_assign", "p_models_add", "p_models_clear", "b_models_set", "b_models_assign",
+                 "b_models_add", "b_models_clear", "b_attenuator", "l_models_set", "l_profile", "l_spectrum", "p_geometry",
+                 "p_integrator", "b_integrator", "l_integrator"}
+STATE_OPS = {"p_comp_add", "p_comp_set", "p_comp_assign", "p_electrons", "p_bfield", "p_atomic", "p_transform", "node_transform",
+             "b_energy", "b_power", "b_element", "b_sigma", "b_length", "b_transform", "b_atomic", "att_step", "att_clamp_sigma",
+             "bm_line", "lp_set", "ls_set", "l_transform", "l_importance", "pm_gaunt"}
 
 
 def gen_op(rng, sim):
@@ -561,13 +611,91 @@ def minimise(case, sig, deadline):
 
 
 def crash_hint(case):
+    if case.get("kind") == "notifier":
+        return "notifier"
     return "+".join(sorted(set(o["op"] for o in case["history"] if o["op"] != "observe")))[:200]
 
 
 _BUDGET = {"t0": None, "spent": 0.0}
 
 
+class _Listener:
+    def __init__(self, tag, counts):
+        self.tag = tag
+        self.counts = counts
+
+    def cb(self):
+        self.counts[self.tag] += 1
+
+
+def run_notifier_case(case, ctx):
+    """History + executable model on the Notifier itself: on notify() every registered callback whose owner is still
+    alive is called exactly once, dead ones are dropped silently, add() is idempotent, remove() unregisters."""
+    import gc
+    from cherab.core.utility import Notifier
+    ctx.cls("notifier")
+    n = case["n"]
+    counts = [0] * n
+    nt = Notifier()
+
+    def make(i):
+        if case["kinds"][i] == "method":
+            ob = _Listener(i, counts)
+            return ob, ob.cb
+        def fn():
+            counts[i] += 1
+        return fn, fn
+    owners = [None] * n
+    cbs = [None] * n
+    for i in range(n):
+        owners[i], cbs[i] = make(i)
+    registered = set()
+    ctx.nontrivial()
+    for step, op in enumerate(case["ops"]):
+        k = op[0]
+        if k == "add":
+            i = op[1]
+            if owners[i] is not None:
+                nt.add(cbs[i] if case["kinds"][i] == "function" else owners[i].cb)
+                registered.add(i)
+        elif k == "remove":
+            i = op[1]
+            if owners[i] is not None and i in registered:
+                nt.remove(cbs[i] if case["kinds"][i] == "function" else owners[i].cb)
+                registered.discard(i)
+        elif k == "delete":
+            i = op[1]
+            owners[i] = None
+            cbs[i] = None
+            registered.discard(i)
+            gc.collect()
+        elif k == "recreate":
+            i = op[1]
+            if owners[i] is None:
+                owners[i], cbs[i] = make(i)
+        elif k == "notify":
+            before = list(counts)
+            try:
+                nt.notify()
+            except Exception as e:  # noqa
+                ctx.viol("notifier:notify-raises:%s" % type(e).__name__, "Notifier.notify() raised %s: %s" % (type(e).__name__, e), step=step)
+                return
+            ctx.mon("notifier_notifications")
+            for i in range(n):
+                want = 1 if i in registered else 0
+                got = counts[i] - before[i]
+                ctx.mon("notifier_callbacks_checked")
+                if got != want:
+                    what = ("registered live callback not called" if got < want else
+                            ("callback called %d times" % got if want else "unregistered or dead callback called"))
+                    ctx.viol("notifier:" + ("live-callback-skipped" if got < want else ("callback-called-twice" if want else "stale-callback-called")),
+                             "Notifier.notify(): %s (listener %d, %s)" % (what, i, case["kinds"][i]), step=step, ops_so_far=case["ops"][:step + 1])
+                    return
+
+
 def run_case(case, ctx):
+    if case.get("kind") == "notifier":
+        return run_notifier_case(case, ctx)
     c = case["cfg"]
     ctx.cls("+".join(["plasma"] + (["beam"] if c.get("beam") else []) + (["laser"] if c.get("laser") else [])))
     try:
